@@ -686,6 +686,24 @@ func compileStmt(context *funcContext, stmt ast.Stmt, isLastStmt bool) { // {{{
 	}
 } // }}}
 
+// assignedLocalReg reports whether reg is the register of a local variable
+// that is itself a target of the multiple assignment stmt. Such a register must
+// not be used in place of a temporary: the store into the local happens before
+// earlier table targets are written.
+func assignedLocalReg(context *funcContext, stmt *ast.AssignStmt, reg int) bool { // {{{
+	if len(stmt.Lhs) < 2 || opIsK(reg) || reg >= context.RegTop() {
+		return false
+	}
+	for _, lhs := range stmt.Lhs {
+		if id, ok := lhs.(*ast.IdentExpr); ok {
+			if getIdentRefType(context, context, id) == ecLocal && context.FindLocalVar(id.Value) == reg {
+				return true
+			}
+		}
+	}
+	return false
+} // }}}
+
 func compileAssignStmtLeft(context *funcContext, stmt *ast.AssignStmt) (int, []*assigncontext) { // {{{
 	reg := context.RegTop()
 	acs := make([]*assigncontext, 0, len(stmt.Lhs))
@@ -711,6 +729,11 @@ func compileAssignStmtLeft(context *funcContext, stmt *ast.AssignStmt) (int, []*
 		case *ast.AttrGetExpr:
 			ac := &assigncontext{&expcontext{ecTable, regNotDefined, 0}, 0, 0, false, false}
 			compileExprWithKMVPropagation(context, st.Object, &reg, &ac.ec.reg)
+			if assignedLocalReg(context, stmt, ac.ec.reg) {
+				context.Code.AddABC(OP_MOVE, reg, ac.ec.reg, 0, sline(st.Object))
+				ac.ec.reg = reg
+				reg++
+			}
 			ac.keyrk = reg
 			reg += compileExpr(context, reg, st.Key, ecnone(0))
 			if _, ok := st.Key.(*ast.StringExpr); ok {
@@ -761,6 +784,11 @@ func compileAssignStmtRight(context *funcContext, stmt *ast.AssignStmt, reg int,
 		if ec.ctype == ecTable {
 			if _, ok := expr.(*ast.LogicalOpExpr); !ok {
 				context.Code.PropagateKMV(context.RegTop(), &ac.valuerk, &reg, reginc)
+				if assignedLocalReg(context, stmt, ac.valuerk) {
+					context.Code.AddABC(OP_MOVE, reg, ac.valuerk, 0, sline(expr))
+					ac.valuerk = reg
+					reg++
+				}
 			} else {
 				ac.valuerk = idx
 				reg += reginc
